@@ -104,10 +104,9 @@ func checkC10(c *an.Ctx) {
 
 func baseVariables(c *an.Ctx, r *runnerRoles, rule string) {
 	p := c.P
-	btr := p.Func("cmd/taskctl", "", "buildTaskRunner")
-	ta := p.Func("cmd/taskctl", "", "taskArgs")
-	if btr == nil || ta == nil {
-		c.Und(rule, "cmd/taskctl.buildTaskRunner", token.NoPos, "buildTaskRunner / taskArgs not found")
+	btr, _ := runnerArgs(p)
+	if btr == nil {
+		c.Und(rule, "cmd/taskctl:runner-builder", token.NoPos, "no function of cmd/taskctl builds the task runner with runner.WithVariables")
 		return
 	}
 	cfg := chainCfg(p)
@@ -130,16 +129,8 @@ func baseVariables(c *an.Ctx, r *runnerRoles, rule string) {
 	c.Check(okChain, rule, an.Short(btr)+":variables", btr.Pos(), "runner variables = Config.Variables with Args on top", "the runner's variables are not built from Config.Variables with Args: "+fmt.Sprint(cfg.Chains(vars)))
 	// Args provenance: strings.Join(taskArgs(c), " "); ArgsList: Set on the same container with taskArgs(c)
 	isTaskArgs := func(v ssa.Value) bool {
-		for _, src := range an.Sources(v) {
-			if call, ok := src.(*ssa.Call); ok {
-				for _, callee := range p.Callees(&call.Call) {
-					if callee == ta {
-						return true
-					}
-				}
-			}
-		}
-		return false
+		ok, _, _ := argsTail(p, v)
+		return ok
 	}
 	argsOK, listOK := false, false
 	an.EachInstr(btr, func(in ssa.Instruction) {
@@ -210,13 +201,35 @@ func baseVariables(c *an.Ctx, r *runnerRoles, rule string) {
 		c.Check(good, rule, an.Short(ntr)+":ARGS", ntr.Pos(), "$ARGS is the runner variable Args", "the runner env does not define ARGS from the runner variable Args")
 	}
 	// --set and Root / TempDir
+	// (the Set call is found anywhere in cmd/taskctl: fed by StringSlice("set") through helpers, after Load on every way in)
 	app := p.Func("cmd/taskctl", "", "makeApp")
 	if app != nil {
 		found := false
-		for _, fn := range an.WithAnon(app) {
-			var loadCall ssa.Instruction
+		var afterLoad func(site ssa.Instruction, depth int) bool
+		afterLoad = func(site ssa.Instruction, depth int) bool {
+			fn := site.Parent()
 			for _, ci := range an.CallsIn(fn, "(*internal/config.Loader).Load") {
-				loadCall = ci
+				if an.Dominates(ci, site) {
+					return true
+				}
+			}
+			if depth == 0 {
+				return false
+			}
+			sites := p.CallSitesOf(fn)
+			if len(sites) == 0 {
+				return false
+			}
+			for _, cs := range sites {
+				if _, isCall := cs.(*ssa.Call); !isCall || !afterLoad(cs, depth-1) {
+					return false
+				}
+			}
+			return true
+		}
+		for _, fn := range p.Funcs {
+			if !inPkgs("cmd/taskctl")(fn) {
+				continue
 			}
 			an.EachInstr(fn, func(in ssa.Instruction) {
 				call, ok := in.(*ssa.Call)
@@ -230,10 +243,10 @@ func baseVariables(c *an.Ctx, r *runnerRoles, rule string) {
 				// Set fed by StringSlice("set")
 				fed := false
 				for _, l := range an.Loops(fn) {
-					if !l.Blocks[call.Block()] {
+					if !l.Blocks[call.Block()] || l.RangeOperand() == nil {
 						continue
 					}
-					for _, src := range an.Sources(l.RangeOperand()) {
+					for _, src := range p.DeepSources(l.RangeOperand(), 3, true) {
 						if sc, ok := src.(*ssa.Call); ok && strings.HasSuffix(an.ShortCallee(&sc.Call), "cli/v2.Context).StringSlice") {
 							if k, _ := an.ConstString(sc.Call.Args[len(sc.Call.Args)-1]); k == "set" {
 								fed = true
@@ -246,12 +259,12 @@ func baseVariables(c *an.Ctx, r *runnerRoles, rule string) {
 				}
 				found = true
 				recv := an.FieldProv(cc.Value)
-				after := loadCall != nil && an.Dominates(loadCall, call)
-				c.Check(recv == "Config.Variables" && after, rule, an.Short(fn)+":--set", call.Pos(), "--set writes into the loaded configuration's variables, after Load", fmt.Sprintf("--set is not applied to Config.Variables after the configuration is loaded (receiver %s, after Load=%v)", recv, after))
+				after := afterLoad(call, 3)
+				c.Check(recv == "Config.Variables" && after, rule, "cmd/taskctl:--set", call.Pos(), "--set writes into the loaded configuration's variables, after Load", fmt.Sprintf("--set is not applied to Config.Variables after the configuration is loaded (receiver %s, after Load=%v)", recv, after))
 			})
 		}
 		if !found {
-			c.Bad(rule, an.Short(app)+":--set", app.Pos(), "--set is never applied to the configuration's variables")
+			c.Bad(rule, "cmd/taskctl:--set", app.Pos(), "--set is never applied to the configuration's variables")
 		}
 	}
 	load := p.Func("internal/config", "Loader", "Load")
@@ -384,68 +397,104 @@ func configVariablesFlow(c *an.Ctx, rule string) {
 	}
 }
 
-func dashHandling(c *an.Ctx, rule string) {
-	p := c.P
-	ta := p.Func("cmd/taskctl", "", "taskArgs")
-	if ta == nil {
-		c.Und(rule, "cmd/taskctl.taskArgs", token.NoPos, "taskArgs not found")
-		return
-	}
-	// returns a sub-slice of Args().Slice() (or nil)
-	good := true
-	why := ""
-	for _, ret := range an.Returns(ta) {
-		for _, src := range an.Sources(an.RetVal(ret, 0)) {
-			if an.IsNilConst(src) {
-				continue
-			}
-			sl, ok := src.(*ssa.Slice)
-			if !ok {
-				good = false
-				why = an.Prov(src)
-				continue
-			}
-			isArgs := false
-			for _, s2 := range an.Sources(sl.X) {
-				if call, ok := s2.(*ssa.Call); ok && strings.HasSuffix(an.ShortCallee(&call.Call), "cli/v2.Args).Slice") {
-					isArgs = true
-				}
-			}
-			if !isArgs || sl.High != nil {
-				good = false
-				why = "slice of " + an.Prov(sl.X)
-			}
-			// low bound: index of a "--" element + 1
-			lowOK := false
-			if bo, ok := sl.Low.(*ssa.BinOp); ok && bo.Op == token.ADD {
-				if k, ok := an.ConstInt(bo.Y); ok && k == 1 {
-					lowOK = true
-				}
-			}
-			if !lowOK {
-				good = false
-				why = "low bound " + an.Prov(sl.Low)
+// argsTail classifies v as "the words after `--`": every source of v (looked
+// through the helpers of cmd/taskctl) is nil or a plain sub-slice
+// Args().Slice()[k+1:]. It returns the functions holding those slices.
+func argsTail(p *an.Prog, v ssa.Value) (ok bool, why string, homes []*ssa.Function) {
+	n := 0
+	ok = true
+	for _, src := range p.DeepSources(v, 3, false) {
+		if an.IsNilConst(src) {
+			continue
+		}
+		sl, isSl := src.(*ssa.Slice)
+		if !isSl {
+			return false, an.Prov(src), nil
+		}
+		isArgs := false
+		for _, s2 := range p.DeepSources(sl.X, 2, false) {
+			if call, ok := s2.(*ssa.Call); ok && strings.HasSuffix(an.ShortCallee(&call.Call), "cli/v2.Args).Slice") {
+				isArgs = true
 			}
 		}
+		if !isArgs || sl.High != nil {
+			return false, "slice of " + an.Prov(sl.X), nil
+		}
+		// low bound: index of a "--" element + 1
+		lowOK := false
+		if bo, isBo := sl.Low.(*ssa.BinOp); isBo && bo.Op == token.ADD {
+			if k, isK := an.ConstInt(bo.Y); isK && k == 1 {
+				lowOK = true
+			}
+		}
+		if !lowOK {
+			return false, "low bound " + an.Prov(sl.Low), nil
+		}
+		n++
+		homes = append(homes, sl.Parent())
 	}
-	c.Check(good, rule, an.Short(ta)+":tail", ta.Pos(), "taskArgs returns the unchanged tail of the arguments after a `--` element", "taskArgs does not return a plain sub-slice after `--`: "+why)
-	// the index it uses is that of an element equal to "--"
-	eq := false
-	an.EachInstr(ta, func(in ssa.Instruction) {
-		if bo, ok := in.(*ssa.BinOp); ok && bo.Op == token.EQL {
-			if s, ok := an.ConstString(bo.Y); ok && s == "--" {
-				eq = true
+	if n == 0 {
+		return false, "no sub-slice of the command-line arguments", nil
+	}
+	return ok, "", homes
+}
+
+// runnerArgs finds the function of cmd/taskctl that builds the task runner
+// (it calls runner.WithVariables) and the value it joins into the Args variable.
+func runnerArgs(p *an.Prog) (btr *ssa.Function, joined ssa.Value) {
+	for _, fn := range p.Funcs {
+		if inPkgs("cmd/taskctl")(fn) && len(an.CallsIn(fn, "pkg/runner.WithVariables")) > 0 {
+			btr = fn
+		}
+	}
+	if btr == nil {
+		return nil, nil
+	}
+	an.EachInstr(btr, func(in ssa.Instruction) {
+		call, ok := in.(*ssa.Call)
+		if !ok {
+			return
+		}
+		if cc, ok := an.IsCallTo(call, fnWith); ok {
+			if k, _ := an.ConstString(cc.Args[0]); k == "Args" {
+				for _, src := range an.Sources(cc.Args[1]) {
+					if j, ok := src.(*ssa.Call); ok && an.ShortCallee(&j.Call) == "strings.Join" {
+						joined = j.Call.Args[0]
+					}
+				}
 			}
 		}
 	})
-	c.Check(eq, rule, an.Short(ta)+":marker", ta.Pos(), "the split point is an argument equal to `--`", "taskArgs does not look for an argument equal to `--`")
+	return btr, joined
+}
+
+func dashHandling(c *an.Ctx, rule string) {
+	p := c.P
+	_, joined := runnerArgs(p)
+	if joined == nil {
+		c.Und(rule, "cmd/taskctl:args-tail", token.NoPos, "the value joined into the runner variable Args was not found")
+		return
+	}
+	good, why, homes := argsTail(p, joined)
+	c.Check(good, rule, "cmd/taskctl:args-tail", joined.Pos(), "the task arguments are the unchanged tail of the command line after a `--` element", "the task arguments are not a plain sub-slice after `--`: "+why)
+	// the index it uses is that of an element equal to "--"
+	eq := false
+	for _, h := range homes {
+		an.EachInstr(h, func(in ssa.Instruction) {
+			if bo, ok := in.(*ssa.BinOp); ok && bo.Op == token.EQL {
+				if s, ok := an.ConstString(bo.Y); ok && s == "--" {
+					eq = true
+				}
+			}
+		})
+	}
+	c.Check(eq || !good, rule, "cmd/taskctl:args-tail:marker", joined.Pos(), "the split point is an argument equal to `--`", "nothing looks for an argument equal to `--`")
 
 	// target loops
-	runTask := p.Func("cmd/taskctl", "", "runTask")
-	runTarget := p.Func("cmd/taskctl", "", "runTarget")
+	disp := dispatchers(p)
 	n := 0
 	for _, fn := range p.Funcs {
-		if !inPkgs("cmd/taskctl")(fn) || fn == ta {
+		if !inPkgs("cmd/taskctl")(fn) {
 			continue
 		}
 		for _, l := range argLoops(fn) {
@@ -454,7 +503,7 @@ func dashHandling(c *an.Ctx, rule string) {
 				for _, in := range b.Instrs {
 					if ci, ok := in.(ssa.CallInstruction); ok {
 						for _, callee := range p.Callees(ci.Common()) {
-							if callee == runTask || callee == runTarget {
+							if disp[callee] {
 								dispatches = true
 							}
 						}
@@ -496,7 +545,7 @@ func dashHandling(c *an.Ctx, rule string) {
 			ex.Effect = func(in ssa.Instruction, st *an.State) string {
 				if ci, ok := in.(ssa.CallInstruction); ok {
 					for _, callee := range p.Callees(ci.Common()) {
-						if callee == runTask || callee == runTarget {
+						if disp[callee] {
 							return "dispatch"
 						}
 					}
